@@ -33,8 +33,7 @@ Oracles (all on public attributes of the returned worlds)
                    before the call), rel LEN_RTOL (abs LEN_RTOL*R for quantities that may be 0);
                    layer.volume / world.volume unchanged, abs <= FRAC_ATOL
   no_mutation      parent.config and new_config deep-equal (key order, types, numpy arrays by value) to
-                   deep copies taken before the call; the parent's geometry snapshot is unchanged;
-                   the same directly for `nested_merge(old, new)` (dictionary_utils.py) on the two dicts
+                   deep copies taken before the call; the parent's geometry snapshot is unchanged
   terminates       every derivation runs under a `sys.settrace` line counter that only follows frames of
                    world_builder/world_builder.py; more than LINE_BUDGET = 1e5 traced lines aborts the
                    call (a private BaseException raised from the trace function) and is the violation.
@@ -48,11 +47,7 @@ derivation 99.  LEN_RTOL = VOL_RTOL = FRAC_ATOL = 1e-12 (>= 1000x margin); the s
 slip is a whole layer thickness (>= 3.3e-3 R) or a shell volume (>= 1e-7 of the world volume), i.e. >= 1e5 x the
 tolerance.  MASS_SLACK = 1e-13 (of |M|).  LINE_BUDGET = 1e5 is 1000x the largest count seen.
 
-The `nested_merge` clause is a component-level proxy for "never mutates the inputs": build_from_world hands
-new_config straight to dictionary_utils.nested_merge and relies on its default make_copies=True contract; the check
-calls it with the same two dictionaries and requires both arguments to be untouched.
-
-Known findings (genuine, .py, not repaired in /repo: see known_findings.d/C16.json, out/proposed-fix-C16-*.diff)
+Findings (genuine, .py; both repaired since by `fix:` commits 87d2e1c and 44466da, entries kept as `fixed`)
   KF-C16-scale-needs-radius-key   scale_from_world raises KeyError('radius') for a world whose layers
                                   were specified by thickness (valid for build_world).
   KF-C16-name-compare-config      build_from_world compares the requested name with config['name'], not
@@ -62,7 +57,9 @@ Sensitivity (tools/mut.py, quick tier, all on a scratch copy)
   fixes/revert-03aad26.diff (i += 1 removed)                                   CAUGHT  terminates
   world_builder.py  prev_layer_radius not advanced in scale_from_world         CAUGHT  contiguous/volume/scale
   world_builder.py  clean_world_config(old_world.config, make_copy=False)      CAUGHT  no_mutation
-  dictionary_utils.py inner nested_merge(..., make_copies=False)               CAUGHT  no_mutation(nested_merge)
+  dictionary_utils.py inner nested_merge(..., make_copies=False)               not a violation of C16: invisible at world level
+                                                                               (the clause that called nested_merge directly was removed: it
+                                                                               asserted a utility-level contract the property does not state)
   physical.py       shell volume uses radius_inner**2                          CAUGHT  volume
   layers/basic.py   mass_below sums range(0, layer_index - 1)                  CAUGHT  enclosed_mass
   world_builder.py  call-site nested_merge(old_copy, new, make_copies=False)   CAUGHT  distinct_name (the requested
@@ -708,15 +705,6 @@ def evaluate(case):
         d = _same_snapshot(before, _snapshot(parent))
         c.check(d is None, {'clause': 'no_mutation', 'op': op_name, 'what': 'parent_state'},
                 '%s: parent world changed at %s' % (tag, d))
-        if s['op'] == 'build':
-            # the merging primitive itself (dictionary_utils.nested_merge) on the same two dictionaries
-            with repo_call('nested_merge'):
-                nested_merge(parent.config, new_config)
-            d = _deq(cfg_before, parent.config) or _deq(new_before, new_config)
-            c.check(d is None, {'clause': 'no_mutation', 'op': 'nested_merge', 'what': 'arguments'},
-                    '%s: nested_merge(parent.config, new_config) changed an argument at %s' % (tag, d))
-            if d is not None:
-                break       # the parent is damaged by our own direct call: stop here
         if budget is not None:
             break
         if child is None:
